@@ -871,3 +871,96 @@ func c03PrintrepReads(c *Ctx, r *Report) {
 	}
 	r.Floor("R03.8", "reads of Mlrval.printrep in package mlrval", n, 20)
 }
+
+// c03ResliceClears (R03.6b): growing a slice within its capacity overwrites
+// what the spare capacity still holds.
+func c03ResliceClears(c *Ctx, r *Report) {
+	r.Rule("R03.6b", "growing within capacity overwrites the old contents: where a function of package mlrval re-slices a slice of values upward within its capacity (s[:n] under a test n <= cap(s)), the loop that follows assigns every slot from the old length to the new one unconditionally — the store is not under a test of the slot's present contents, because an earlier shrink (unset of the last elements) leaves the old values in the spare capacity, and a conditional fill would bring them back")
+	p := c.Pkg("pkg/mlrval")
+	if p == nil {
+		r.Undecided("R03.6b", "pkg/mlrval", "", "package not loaded")
+		return
+	}
+	n := 0
+	for _, fn := range c.ModuleFunctions() {
+		if fn.Blocks == nil || fn.Pkg == nil || fn.Pkg.Pkg != p.Types {
+			continue
+		}
+		for _, b := range fn.Blocks {
+			for _, in := range b.Instrs {
+				sl, ok := in.(*ssa.Slice)
+				if !ok || sl.High == nil || sl.Low != nil {
+					continue
+				}
+				if !strings.HasSuffix(sl.Type().String(), "[]*"+modPath+"/pkg/mlrval.Mlrval") && !strings.HasSuffix(sl.Type().String(), "[]*Mlrval") {
+					continue
+				}
+				// under a test against cap(s)
+				underCap := false
+				for _, g := range GuardsAt(b) {
+					if cmp, ok := g.Cond.(*ssa.BinOp); ok {
+						for _, side := range []ssa.Value{cmp.X, cmp.Y} {
+							if call, ok := side.(*ssa.Call); ok {
+								if bi, ok := call.Call.Value.(*ssa.Builtin); ok && bi.Name() == "cap" {
+									underCap = true
+								}
+							}
+						}
+					}
+				}
+				if !underCap {
+					continue
+				}
+				n++
+				// stores into slots of the re-sliced value
+				bad, nst := "", 0
+				for _, ref := range *sl.Referrers() {
+					ia, ok := ref.(*ssa.IndexAddr)
+					if !ok {
+						continue
+					}
+					for _, r2 := range *ia.Referrers() {
+						st, ok := r2.(*ssa.Store)
+						if !ok || st.Addr != ssa.Value(ia) {
+							continue
+						}
+						nst++
+						// guards between the re-slice and the store other than the loop bound: a test that reads the slot
+						for _, g := range GuardsAt(st.Block()) {
+							if g.Block == nil || !b.Dominates(g.Block) {
+								continue
+							}
+							readsSlot := false
+							var walk func(v ssa.Value, depth int)
+							walk = func(v ssa.Value, depth int) {
+								if depth > 4 {
+									return
+								}
+								switch x := v.(type) {
+								case *ssa.UnOp:
+									if ia2, ok := x.X.(*ssa.IndexAddr); ok && ia2.X == ssa.Value(sl) {
+										readsSlot = true
+									}
+									walk(x.X, depth+1)
+								case *ssa.BinOp:
+									walk(x.X, depth+1)
+									walk(x.Y, depth+1)
+								}
+							}
+							walk(g.Cond, 0)
+							if readsSlot {
+								bad = c.Rel(st.Pos())
+							}
+						}
+					}
+				}
+				if nst == 0 {
+					bad = "(no slot is assigned at all)"
+				}
+				r.Check(bad == "", "R03.6b", SSAName(fn)+": growth within capacity", c.Rel(sl.Pos()), "every new slot is assigned unconditionally",
+					fmt.Sprintf("%s grows a slice of values within its capacity at %s and fills the new slots only under a test of what they hold now (store at %s): values removed by an earlier shrink are still there and come back instead of the fill value", SSAName(fn), c.Rel(sl.Pos()), bad))
+			}
+		}
+	}
+	r.Floor("R03.6b", "growths of a value slice within its capacity", n, 1)
+}
